@@ -298,6 +298,9 @@ class Real:
         chk("ls-len", len(x.ls) == x.num_irreps == sum(m for m, _ in v))
         blocks = [ir for mul, ir in x for _ in range(mul)]
         chk("ls-blocks", x.ls == [ir.l for ir in blocks])
+        if blocks:   # lmax is consistent with ls (documented: the maximum degree PRESENT; multiplicity-0 entries carry nothing)
+            chk("lmax-is-max-ls", x.lmax == max(ir.l for ir in blocks))
+            chk("lmax-invariant", x.simplify().lmax == x.lmax == x.remove_zero_multiplicities().lmax == x.regroup().lmax)
         for ir in set(ir for _, ir in v) | {(0, 1), (1, -1)}:
             chk("count", x.count(o3.Irrep(*ir)) == sum(m for m, i in v if i == ir) == blocks.count(o3.Irrep(*ir)))
             chk("contains", (o3.Irrep(*ir) in x) == any(i == ir for _, i in v))
